@@ -65,7 +65,6 @@ structure Sig where
 def realGen (n : Nat) : String := "x" ++ toString n
 
 inductive Err where
-  | fuel
   | unreachable (msg : String)
   | panic (msg : String)
   /-- "non-exhaustive match on integer literal of type …; add a wildcard arm" -/
@@ -630,34 +629,40 @@ def build (bodyTy : Ty) (bv : String) (bty : Ty) : Shape → List (DT β) → DT
     | [t] => wrapGet c bv bty 0 vars t
     | _ => .missing .unit
 
-def compileSeq (rec : Nat → List (Row β) → M (DT β × Nat)) : Nat → List (List (Row β)) → M (List (DT β) × Nat)
-  | n, [] => .ok ([], n)
+def compileSeq (rec : Nat → List (Row β) → Option (M (DT β × Nat))) :
+    Nat → List (List (Row β)) → Option (M (List (DT β) × Nat))
+  | n, [] => some (.ok ([], n))
   | n, rs :: rest =>
     match rec n rs with
-    | .error e => .error e
-    | .ok r =>
+    | none => none
+    | some (.error e) => some (.error e)
+    | some (.ok r) =>
       match compileSeq rec r.2 rest with
-      | .error e => .error e
-      | .ok q => .ok (r.1 :: q.1, q.2)
+      | none => none
+      | some (.error e) => some (.error e)
+      | some (.ok q) => some (.ok (r.1 :: q.1, q.2))
 
-/-- `compile_rows`; returns the tree and the gensym counter after it -/
-def compileRows (S : Sig) : Nat → Ty → Nat → List (Row β) → M (DT β × Nat)
-  | 0, _, _, _ => .error .fuel
+/-- `compile_rows`; returns the tree and the gensym counter after it.
+    `none` = out of fuel (never happens when `fuel > measure rows`, see `compileRows_total`);
+    `some (.error _)` = the Rust panics / reports the diagnostic. -/
+def compileRows (S : Sig) : Nat → Ty → Nat → List (Row β) → Option (M (DT β × Nat))
+  | 0, _, _, _ => none
   | fuel + 1, ty, n, rows =>
     match rows.map moveVars with
-    | [] => .ok (.missing ty, n)
+    | [] => some (.ok (.missing ty, n))
     | r0 :: rest =>
-      if r0.cols.isEmpty then .ok (.leaf r0.binds r0.body, n)
+      if r0.cols.isEmpty then some (.ok (.leaf r0.binds r0.body, n))
       else
         match branchVar (r0 :: rest) with
-        | none => .error (.unreachable "no branch variable")
+        | none => some (.error (.unreachable "no branch variable"))
         | some bvt =>
           match plan S n bvt.1 bvt.2 ty (r0 :: rest) with
-          | .error e => .error e
+          | .error e => some (.error e)
           | .ok pl =>
             match compileSeq (compileRows S fuel pl.subTy) pl.n1 pl.subs with
-            | .error e => .error e
-            | .ok q => .ok (build r0.bodyTy bvt.1 bvt.2 pl.shape q.1, q.2)
+            | none => none
+            | some (.error e) => some (.error e)
+            | some (.ok q) => some (.ok (build r0.bodyTy bvt.1 bvt.2 pl.shape q.1, q.2))
 
 /-! ## fuel: a pattern-size measure -/
 
@@ -701,25 +706,28 @@ inductive Scrut where
     (the Rust takes it BEFORE compiling the scrutinee, whose own gensyms are not modelled:
     the counter `n` handed in is the one after both). -/
 def compileMatch (S : Sig) (fuel : Nat) (ty : Ty) (mtmp : String) (n : Nat) (sc : Scrut)
-    (arms : List (ArmIn Expr)) : M (Expr × Nat) :=
+    (arms : List (ArmIn Expr)) : Option (M (Expr × Nat)) :=
   match sc with
   | .var x =>
     match compileRows S fuel ty n (makeRows x arms) with
-    | .error e => .error e
-    | .ok r => .ok (r.1.toExpr, r.2)
+    | none => none
+    | some (.error e) => some (.error e)
+    | some (.ok r) => some (.ok (r.1.toExpr, r.2))
   | .other e =>
     match compileRows S fuel ty n (makeRows mtmp arms) with
-    | .error e => .error e
-    | .ok r => .ok (.letE mtmp e r.1.toExpr, r.2)
+    | none => none
+    | some (.error e) => some (.error e)
+    | some (.ok r) => some (.ok (.letE mtmp e r.1.toExpr, r.2))
 
 /-- destructuring `let pat = e; rest` (`compile_block_exprs`) and the stand-alone form
     (`compile_expr`, `rest = ()`): two rows, the pattern and a wildcard whose body is `missing` -/
 def compileLet (S : Sig) (fuel : Nat) (ty : Ty) (mtmp : String) (n : Nat) (e : Expr) (pat : Pat)
-    (rest : Expr) (restTy : Ty) : M (Expr × Nat) :=
+    (rest : Expr) (restTy : Ty) : Option (M (Expr × Nat)) :=
   let rows : List (Row Expr) :=
     [⟨[(mtmp, pat)], [], rest, restTy⟩, ⟨[(mtmp, .wild pat.ty)], [], emissing restTy, restTy⟩]
   match compileRows S fuel ty n rows with
-  | .error e => .error e
-  | .ok r => .ok (.letE mtmp e r.1.toExpr, r.2)
+  | none => none
+  | some (.error e) => some (.error e)
+  | some (.ok r) => some (.ok (.letE mtmp e r.1.toExpr, r.2))
 
 end Goml.Match
